@@ -20,6 +20,7 @@ class XType:
         self.attributes = []  # (name, type, use)
         self.base = None
         self.choice_groups = []  # lists of child names under an xs:choice
+        self.single_choices = []  # those of them whose xs:choice may be taken once (maxOccurs = 1): one alternative only
 
     def child_names(self):
         return [c[0] for c in self.children]
@@ -118,6 +119,8 @@ class XSD:
                             self._collect(cc, x, cc.tag == XS + "choice" or in_choice, min_override)
         if in_choice and group:
             x.choice_groups.append(group)
+            if getattr(comp, "tag", None) == XS + "choice" and comp.get("maxOccurs", "1") == "1":
+                x.single_choices.append(group)
 
     def type_of(self, name):
         return self.types.get(name)
